@@ -6,8 +6,7 @@ META = {
     "level": "model_checking",
     "text": "The specification's world for a source does not depend on how the source is split into files; TLC enumerates "
             "1080 sources and every one is built as several compact index files merged into one world: (split 1) points in "
-            "a base file and everything else in an overlay file built against it with BuildOverlayInMemory, (split 2) one "
-            "overlay file per feature type; lookup, tag search (merged in ID order, no duplicates), enumeration and the "
+            "a base file and everything else in an overlay file built against it with BuildOverlayInMemory, (split 2) points / paths+areas / relations as three files, (split 3) three files that all contain every point; lookup, tag search (merged in ID order, no duplicates), enumeration and the "
             "geometry of overlay paths (points resolved in the base file) must equal the specification's single world.",
     "note": "Small scope: 9 IDs, one namespace shared by all files (the interesting case for first-matching-block bugs). "
             "Trusted: TLC, harness/obs, vh-world.",
@@ -19,7 +18,11 @@ def run(ctx):
     return sworld.run_static(
         ctx, "C17", 1,
         variants=[{"impl": "compact-split", "cores": 2, "split": 1, "max": (24, 300)},
-                  {"impl": "compact-split", "cores": 1, "split": 2, "max": (12, 150)}],
+                  {"impl": "compact-split", "cores": 1, "split": 2, "max": (12, 150)},
+                  # every point present in three files: search must return it once (enumeration of duplicated
+                  # features is not part of the statement and is not compared)
+                  {"impl": "compact-split", "cores": 1, "split": 3, "max": (14, 150),
+                   "sections": ["lookup", "search", "problems", "build", "observe"]}],
         sections=["lookup", "search", "each", "problems", "build", "observe"],
         rule="every source TLC enumerates for scenario 1 built as 2 and as 4 merged compact files; distinct = (split, source)",
         max_cases=ctx.pick(400, None))
